@@ -83,6 +83,9 @@ type devBatch struct {
 	CfgMode string          `json:"cfgmode"` // literal | toml
 	Toml    string          `json:"toml"`
 	Sub     string          `json:"sub"` // sub-handler name the events come from
+	// Optional: when ParseData rejects the rendered configuration the batch is skipped (logged as
+	// "rejected") instead of being an error: the quantifier is "configurations the parser accepts"
+	Optional bool `json:"optional"`
 	Walks   [][]devInput    `json:"walks"`
 }
 
@@ -176,6 +179,15 @@ func literalConfig(c *absCfg, sub string) (config.Config, error) {
 		out.KeyMappings = append(out.KeyMappings, km)
 	}
 	return out, nil
+}
+
+func parseGuarded(data []byte) (c config.Config, err error) {
+	defer func() {
+		if p := recover(); p != nil {
+			err = fmt.Errorf("ParseData panicked: %v", p)
+		}
+	}()
+	return config.ParseData(data)
 }
 
 type stepOut struct {
@@ -428,7 +440,13 @@ func cmdDevice(args []string) error {
 		}
 		var conf config.Config
 		if b.CfgMode == "toml" {
-			conf, err = config.ParseData([]byte(b.Toml))
+			conf, err = parseGuarded([]byte(b.Toml))
+			if err != nil && b.Optional {
+				if err := enc.Encode(stepOut{Ev: "rejected", C: bi + 1, O: [][]int{}, Msg: err.Error()}); err != nil {
+					return err
+				}
+				continue
+			}
 			if err != nil {
 				return fmt.Errorf("batch %d: ParseData rejected the rendered configuration: %w", bi, err)
 			}
